@@ -56,6 +56,8 @@ PLAN = {
         dict(test="TestC15Exhaustive", kind="plain", quick=(0, 1), thorough=(0, 1), timeout_thorough=3600),
         dict(test="TestC15Registry", quick=(20000, 3), thorough=(400000, 4)),
         dict(test="TestC15R", quick=(120, 12), thorough=(1500, 12), race=True, timeout=1500, timeout_thorough=7200),
+        # deterministic engine: main-loop events that land while a node's worker is inside a consumer call
+        dict(test="TestC15S", quick=(1500, 6), thorough=(30000, 8), timeout_thorough=7200),
     ],
     "C17": [
         dict(test="TestC17Exhaustive", kind="plain", quick=(0, 1), thorough=(0, 1), timeout_thorough=3600),
